@@ -38,19 +38,36 @@ Only what the statement says is demanded: pixel scales are an explicit argument 
 header claim is checked where a header is read (from_primary_hdu); padded cells of a resized mask and the
 origin are not checked.
 
-Validated against (tools/mutant.py, each keeps the repository suite green, each caught by the quick tier unless
-noted; see the final report of the implementation task for the exact substitutions):
-  m1  flip only on read for masks (Mask2D.output_to_fits / hdu_for_output write un-flipped data)
-  m2  flip on the 2-D file path but not the HDU path (Array2D.from_primary_hdu does not un-flip)
-  m3  overwrite by append (array_2d_util: fits.append instead of remove + writeto)
-  m4  overwrite silently ignored (existing file kept, no error) in numpy_array_1d_to_fits
-  m5  header key typo (PIXSCALEX written as PIXSCALX)
-  m6  revert of 06cbca2 (bare file name), m7 revert of fc30897 (Array1D HDU flip), m8 revert of acf401b (PIXSCALEY/X)
-  m9  own: np.flipud replaced by np.flip (both axes) in hdu_for_output_from AND numpy_array_2d_via_fits_from -
-      composition is the identity, only the raw-orientation monitors see it
-  m10 own: Kernel2D.from_primary_hdu reads the scales transposed (PIXSCALEX, PIXSCALEY) - needs anisotropy
-  m11 own: makedirs of os.path.dirname(os.path.abspath(file_dir)) - the last missing directory level is not created
-      when the path is nested and the parent is created instead
+Validated against (tools/mutant.py; every mutant keeps the repository suite at 699/699 baseline passes and is
+caught by the quick tier; in brackets the monitors that fired):
+  m1   flip only on read, masks: Mask2D.output_to_fits pre-flips so the file holds un-flipped data
+       [file.raw_orientation, flip1.observed_in_raw_file, roundtrip.file_then_primary_hdu.Mask2D]
+  m2   flip on the 2-D file path but not the HDU path: Array2D.from_primary_hdu does not un-flip
+       [roundtrip.hdu.Array2D, roundtrip.file_then_primary_hdu.Array2D]
+  m3   overwrite by append: fits.append(file_path, ...) instead of remove + writeto in numpy_array_2d_to_fits
+       [audit.remove_precedes_write, overwrite.replaced, file.raw_orientation, roundtrip.file.*]
+  m4a  overwrite succeeds silently without the flag: hdu.writeto(file_path, overwrite=True) (2-D)
+       [overwrite.refused, overwrite.old_intact, audit.refused_write_untouched]
+  m4b  overwrite silently ignored: `return` when the target exists (1-D) [file.raw_orientation, overwrite.replaced, ...]
+  m5   header key typo: PIXSCALEX written as PIXSCALX [read.unexpected_exception (KeyError) on anisotropic scales]
+  m6   revert of 06cbca2 (bare file name -> os.makedirs(''))        [write.succeeds in state 'bare']
+  m7   revert of fc30897 (Array1D.hdu_for_output through the 2-D helper) [flip.one_dimensional_not_reversed, roundtrip.hdu.Array1D]
+  m8   revert of acf401b (PIXSCALEY / PIXSCALEX)                     [pixel_scale.hdu_header.aniso, pixel_scale.file_header.aniso]
+  m9   own, subtle: np.flipud -> np.roll(+1 / -1, axis 0) in hdu_for_output_from, numpy_array_2d_via_fits_from and
+       flip_hdu_for_ds9: write then read is still the identity and for 2 rows roll == flipud (the suite's only flip test
+       is 2x2), only the raw-orientation monitors and the contracts see it (needs >= 3 rows)
+  m10  own, subtle: pixel_scales_from_header returns (PIXSCALEX, PIXSCALEY) - needs anisotropic scales [pixel_scale.*.aniso]
+  m11  own: os.makedirs -> os.mkdir, one missing level still works, nested missing directories fail [write.succeeds in 'nested_*']
+  m12  own, subtle: the read path un-flips only square arrays (the suite's flip test is square) [roundtrip.file.*, contract]
+  m13  own: Array2D.hdu_for_output casts to float32 (+-1e300 -> inf, 1e-300 -> 0, mantissas cut) [hdu.raw_orientation, roundtrip.hdu.*]
+  m14  own: a bare file name is written into another directory instead of the cwd [audit.confined_to_scratch, bare_name.in_cwd]
+  m15  own, subtle: Imaging.output_to_fits always overwrites the noise map - only visible when the data file is absent and
+       the noise-map file exists (state present_refused_partial) [overwrite.refused, overwrite.old_intact, audit.refused_write_untouched]
+  m16  own: PIXSCALE stored with float32 precision [pixel_scale.hdu_header.iso, pixel_scale.file_header.iso]
+  m19  own, subtle: overwrite by writing the new bytes over the old file without truncation (r+b) - invisible when the
+       old file is not larger than the new one [audit.remove_precedes_write, overwrite.replaced]
+A dead / bypassed audit hook (simulated by never installing it) yields INCONCLUSIVE through the self-test in setup and the
+audit.write_not_seen / audit.read_not_seen counters, not 'held'.
 """
 import contextlib
 import os
@@ -75,7 +92,7 @@ RULE = ("a case = (class, flip_for_ds9, generated object): shape stratum x value
         "cannot hide; symmetric / constant draws are executed but counted trivial")
 BOUNDS = {"quick": "6 classes x 2 flip settings x 72 objects, shapes <= 12x15 plus the 359/360/361-value block-boundary "
                    "shapes, <= 4 HDUs per multi-extension file",
-          "thorough": "6 classes x 2 flip settings x 1200 objects, same strata"}
+          "thorough": "6 classes x 2 flip settings x 1020 objects, same strata"}
 EXHAUSTIVE = {"quick": False, "thorough": False}
 ASSUMPTIONS = ["A2: astropy is trusted to write/read float64 images and header cards; it is also the independent reader of "
                "the raw on-disk orientation",
@@ -90,7 +107,7 @@ QUICK_JOBS = 16
 
 CLASSES = ("Array2D", "Mask2D", "Kernel2D", "Array1D", "Mask1D", "Imaging")
 STATES = ("absent", "absent_overwrite", "nested_abs", "nested_rel", "bare", "present_refused", "present_overwrite")
-PER = {"quick": 72, "thorough": 1200}
+PER = {"quick": 72, "thorough": 1020}
 BATCH = {"quick": 18, "thorough": 60}
 
 MIN_MONITORS = {"*": dict(
@@ -120,9 +137,9 @@ def plan(tier, seed):
 
 
 def post(merged, inconclusive, tier):
-    n = merged["skipped"].get("audit.write_not_seen", 0)
+    n = merged["skipped"].get("audit.write_not_seen", 0) + merged["skipped"].get("audit.read_not_seen", 0)
     if n:
-        inconclusive.append("the audit recorder did not see %d writes that did happen (dead or bypassed hook)" % n)
+        inconclusive.append("the audit recorder did not see %d writes / reads that did happen (dead or bypassed hook)" % n)
 
 
 # --------------------------------------------------------------------------------------- helpers
@@ -385,14 +402,16 @@ def check_back(ctx, aa, monitor, part, back, flip, how, scales=None):
     exp = part.exp
     klass = getattr(aa, part.cls)
     got = _np(back.native) if part.cls not in ("Mask2D", "Mask1D") else _np(back)
-    want_dtype = np.bool_ if exp.dtype == bool else np.float64
-    ok = (isinstance(back, klass) and tuple(back.shape_native) == tuple(exp.shape) and got.dtype == want_dtype
-          and same(got, exp, part.rtol, ctx))
+    ok = (isinstance(back, klass) and tuple(back.shape_native) == tuple(exp.shape) and same(got, exp, part.rtol, ctx)
+          and (exp.dtype != bool or got.dtype == np.bool_))          # masks come back as booleans, arrays as equal reals
     _check(ctx, ok, monitor, how=how, flip=flip, cls=part.cls, expected=exp, got=got, got_type=type(back).__name__,
               got_dtype=str(got.dtype), info=part.info, pixel_scales=part.scales)
     if scales is not None:
         ps = back.pixel_scales
-        okp = isinstance(ps, tuple) and tuple(float(x) for x in ps) == tuple(part.scales)
+        try:
+            okp = tuple(float(x) for x in ps) == tuple(part.scales)
+        except Exception:
+            okp = False
         _check(ctx, okp, scales, how=how, cls=part.cls, flip=flip, expected=part.scales, got=repr(ps))
 
 
@@ -403,7 +422,7 @@ def check_raw(ctx, where, part, raw, flip, how):
     want = expected_raw(exp, flip)
     if part.rtol is not None:      # Imaging PSF: the dataset wrote what it holds; orientation is what is checked
         want = expected_raw(_np(part.obj.native).astype(float), flip)
-    ok = raw.dtype.kind == "f" and raw.dtype.itemsize == 8 and raw.shape == want.shape and np.array_equal(raw.astype(np.float64), want)
+    ok = raw.shape == want.shape and np.array_equal(raw.astype(np.float64), want)      # the on-disk number type is not part of the claim
     _check(ctx, ok, "%s.raw_orientation" % where, how=how, flip=flip, cls=part.cls, expected_raw=want, got_raw=raw, info=part.info)
     if want.ndim == 2 and orientation_sensitive(want):
         other = np.flipud(want)
@@ -441,6 +460,14 @@ def feed(ctx, rules, **extra):
         _check(ctx, ok, "audit." + rule, **dict(wit, **extra))
 
 
+def feed_read(ctx, rlog, how, completed):
+    """A file read that completed must have been seen by the recorder as >= 1 read-only open, else the rule is vacuous."""
+    if completed and rlog.reads == 0:
+        ctx.skipped["audit.read_not_seen"] += 1
+        return
+    feed(ctx, audit.check_readonly_trace(rlog), how=how)
+
+
 # --------------------------------------------------------------------------------------- contracts
 def _flip_now(ctx):
     return getattr(ctx, "c16_flip", None)
@@ -476,7 +503,7 @@ def post_via_fits(ctx, a, result, old):
         return None
     want = np.flipud(raw) if flip else raw
     got = np.asarray(result)
-    return (got.dtype == np.float64 and np.array_equal(got, want), {"flip": flip, "raw": raw, "got": got, "hdu": a["hdu"]})
+    return (np.array_equal(got, want), {"flip": flip, "raw": raw, "got": got, "hdu": a["hdu"]})
 
 
 # --------------------------------------------------------------------------------------- setup
@@ -553,7 +580,7 @@ def run_unit(ctx, u):
 def target_for(state, cdir, i, name):
     """-> (path argument handed to the repository, absolute target, cwd to run in or None, path kind)"""
     as_path = bool(i % 2)
-    if state in ("absent", "absent_overwrite", "present_refused", "present_overwrite"):
+    if state in ("absent", "absent_overwrite", "present_refused", "present_refused_partial", "present_overwrite"):
         t = os.path.join(cdir, state, name)
         arg = pathlib.Path(t) if (as_path and state in ("absent_overwrite", "present_overwrite")) else t
         return arg, t, None, "pathlib_abs" if isinstance(arg, pathlib.Path) else "str_abs"
@@ -592,23 +619,26 @@ def file_states(ctx, label, rng, i, flip, root, cdir, parts, writer, reader, cls
     aa = ctx.aa
     names = list(parts)
     fresh = {}
-    for state in STATES:
+    for state in STATES + (("present_refused_partial",) if len(names) > 1 else ()):
         targ = {n: target_for(state, cdir, i, "%s_%s.fits" % (label.lower(), n)) for n in names}
         args = {n: targ[n][0] for n in names}
         tabs = {n: targ[n][1] for n in names}
         cwd, kind = targ[names[0]][2], targ[names[0]][3]
-        present = state in ("present_refused", "present_overwrite")
-        overwrite = state in ("absent_overwrite", "present_overwrite")
+        present = state in ("present_refused", "present_refused_partial", "present_overwrite")
+        # nested targets are absent: requesting overwrite there must change nothing (every 4th case)
+        overwrite = state in ("absent_overwrite", "present_overwrite") or (state in ("nested_abs", "nested_rel") and i % 4 == 2)
         smaller = present and (i % 4 == 3)
         if state in ("absent", "absent_overwrite"):
             os.makedirs(os.path.dirname(tabs[names[0]]), exist_ok=True)
         old = {}
+        # Imaging only: just one of the later components exists - the call must still fail and leave that file alone
+        victims = names if state != "present_refused_partial" else [names[1 + int(rng.integers(len(names) - 1))]]
         if present:
-            for n in names:
+            for n in victims:
                 old[n] = write_old(rng, tabs[n], [parts[n].exp.shape], smaller)
         missing = {n: _missing_dirs(tabs[n]) for n in names}
         existed = {n: os.path.exists(tabs[n]) for n in names}
-        tag = "%s|flip%d|%s|%s" % (label, flip, kind, state)
+        tag = "%s|flip%d|%s|%s%s" % (label, flip, kind, state, "+overwrite" if (overwrite and state.startswith("nested")) else "")
         cls_tags.append(tag)
         err = None
         with _cwd(cwd):
@@ -619,12 +649,14 @@ def file_states(ctx, label, rng, i, flip, root, cdir, parts, writer, reader, cls
                     err = (e, traceback.format_exc()[-1500:])
         audit_counts(ctx, log)
         feed(ctx, [audit.rule_confined(log, root)], how=tag, path_argument=repr(args))     # whatever the outcome of the call
-        if state == "present_refused":
-            _check(ctx, err is not None, "overwrite.refused", how=tag, target=tabs, note="write to an existing path without overwrite did not fail")
-            intact = all(os.path.exists(tabs[n]) and _read_bytes(tabs[n]) == old[n] for n in names)
-            _check(ctx, intact, "overwrite.old_intact", how=tag, target=tabs, exception=repr(err[0]) if err else None)
-            for n in names[:1]:   # the first file is the one that refuses; the others are never reached
-                feed(ctx, audit.check_refused_trace(log, root, tabs[n]), how=tag)
+        if state in ("present_refused", "present_refused_partial"):
+            _check(ctx, err is not None, "overwrite.refused", how=tag, existing={n: tabs[n] for n in victims},
+                   note="write to an existing path without overwrite did not fail")
+            intact = all(os.path.exists(tabs[n]) and _read_bytes(tabs[n]) == old[n] for n in victims)
+            _check(ctx, intact, "overwrite.old_intact", how=tag, existing={n: tabs[n] for n in victims},
+                   exception=repr(err[0]) if err else None)
+            for n in victims:
+                feed(ctx, audit.check_refused_trace(log, root, tabs[n]), how=tag, part=n)
             continue
         if not _check(ctx, err is None, "write.succeeds", how=tag, path_argument=repr(args), exception=repr(err[0]) if err else None,
                          traceback=err[1] if err else None, info=parts[names[0]].info):
@@ -675,7 +707,7 @@ def file_states(ctx, label, rng, i, flip, root, cdir, parts, writer, reader, cls
             with audit.recording() as rlog:
                 okr, backs = _guarded(ctx, "read.unexpected_exception", reader, args)
         audit_counts(ctx, rlog)
-        feed(ctx, audit.check_readonly_trace(rlog), how=tag)
+        feed_read(ctx, rlog, tag, okr)
         if okr:
             for n in names:
                 check_back(ctx, aa, "roundtrip.file.%s" % label, parts[n], backs[n], flip, tag + "|" + n, scales="pixel_scale.file_argument")
@@ -696,7 +728,7 @@ def multiext(ctx, label, rng, i, flip, cdir, slots, reader):
     with audit.recording() as rlog:
         okr, backs = _guarded(ctx, "read.unexpected_exception", reader, path, {n: k for k, (n, p) in enumerate(slots)})
     audit_counts(ctx, rlog)
-    feed(ctx, audit.check_readonly_trace(rlog), how="multiext")
+    feed_read(ctx, rlog, "multiext", okr)
     if okr:
         for k, (n, p) in enumerate(slots):
             check_back(ctx, ctx.aa, "roundtrip.multiext.%s" % label, p, backs[n], flip, "multiext|hdu=%d of %d" % (k, len(slots)))
